@@ -6,6 +6,12 @@ import FeatModel.Lemmas.C08Poly
 import FeatModel.Lemmas.C08Blocked
 import FeatModel.Lemmas.C08IluFactor
 import FeatModel.Lemmas.C08IluCopy
+import FeatModel.Lemmas.C08IluCopyEq
+import FeatModel.Lemmas.C08IluNumEq
+import FeatModel.Lemmas.C08IluOffs
+import FeatModel.Lemmas.C08IluBlocked
+import FeatModel.Lemmas.C08IluSymbolic0
+import FeatModel.Lemmas.C08IluSymbolic
 /-!
 # C08 — preconditioners apply exactly their defining linear operator (property theorems)
 
@@ -16,10 +22,10 @@ correspondence run ties them to `SORPrecond`, `SSORPrecond`, `JacobiPrecond`, `I
 `Csr.entry i j`; `sortedDiag` is the documented precondition (square, sorted rows, stored diagonal); the correction
 filter is `filterCor` (unit filter: listed components are set to zero).
 
-Not proved here (observed by the correspondence run and the independent oracle only): that `factorizeSymbolic`
-produces the textbook level-p pattern (and a well-shaped, sorted structure), that the index-faithful merge-pointer loops
-`copyDataCsr` / `factorizeNumeric` equal their find-based formulations (compared by the driver on every case), and the
-BCSR Jacobi / ILU / matrix variants (blocked SOR / SSOR are proved over an arbitrary block ring).
+Not proved here (observed by the correspondence run and the independent oracle only): that the pattern produced by
+`factorizeSymbolic p` is EXACTLY the textbook level-of-fill-p pattern (well-shaped, sorted, ⊇ matrix pattern is proved),
+the blocked ILU factorisation `L·U = A` (its solves are proved over an arbitrary ring; the factorisation is compared
+with the model run at bs×bs blocks), and the BCSR Jacobi / matrix variants.
 -/
 open Finset FeatModel.LA FeatModel.Solver
 
@@ -141,13 +147,34 @@ theorem C08.ilu_solve_spec {α : Type} [Field α] (s : IluSym) (hs : s.wf = true
           + ∑ j ∈ range s.n, (s.matU d).entry i j * (iluSolve s d b x0).getD j 0 = y.getD i 0) :=
   iluSolve_spec s hs d hl hu hd b x0 hb hx0
 
+/-- **fill-ins are reset on every numeric factorisation.** `copy_data_csr` (index-faithful model, working in place on
+    the data arrays of the object) writes every position of `dataL`, `dataU`, `dataD` — zero on the fill-in positions —
+    so its result does not depend on the previous content (e.g. the factors of an earlier `init_numeric`); it only
+    needs proper offset arrays, which `set_struct_csr` / `factorize_symbolic(p)` produce for every input. -/
+theorem C08.copy_resets_fill {α : Type} [Field α] (s : IluSym) (h : s.OffsOk) (A : Csr α) (prev prev' : IluNum α)
+    (hp : prev.Sz s) (hp' : prev'.Sz s) : copyDataCsr s A prev = copyDataCsr s A prev' :=
+  FeatModel.Solver.copy_resets_fill s h A prev prev' hp hp'
+
+/-- the offset arrays of the symbolic structure are proper for EVERY input matrix and every fill level `p`, and the
+    data arrays allocated by `init_symbolic` fit them (so `C08.copy_resets_fill` always applies) -/
+theorem C08.symbolic_offsets {α : Type} [Field α] (n : Nat) (rowPtr colInd : Array Nat) (s0 : IluSym)
+    (h : setStructCsr n rowPtr colInd = some s0) (p : Int) :
+    (factorizeSymbolic s0 p).OffsOk ∧ (factorizeSymbolic s0 p).n = n
+      ∧ (allocData (factorizeSymbolic s0 p) : IluNum α).Sz (factorizeSymbolic s0 p) := by
+  obtain ⟨h1, h2⟩ := setStructCsr_offsOk n rowPtr colInd s0 h
+  obtain ⟨h3, h4⟩ := factorizeSymbolic_offsOk s0 h1 p
+  exact ⟨h3, h4.trans h2, allocData_sz _⟩
+
 /-- `init_numeric; apply` depends on the earlier life of the solver object only through what `init_symbolic`
-    produced (sizes, ILU pattern): no stale inverted diagonal or stale factor can influence the result. -/
+    produced (sizes, ILU pattern): no stale inverted diagonal, stale factor or stale fill-in entry can influence the
+    result. `StOk` (proper offsets, data arrays of matching size) is established by `init_symbolic` and kept by every
+    step (`initSymbolic_stOk`, `initNumeric_stOk`). -/
 theorem C08.init_numeric_refreshes {α : Type} [Field α] [DecidableEq α] (tiny : α → Bool) (c : Cfg α) (A : Csr α)
-    (st st' : PState α) (h : st.invD.size = st'.invD.size ∧ st.iluS = st'.iluS) (x : Array α) :
+    (st st' : PState α) (h : st.invD.size = st'.invD.size ∧ st.iluS = st'.iluS) (hok : StOk st) (hok' : StOk st')
+    (x : Array α) :
     (initNumeric c A st).bind (fun s => applyStep tiny c A s x)
       = (initNumeric c A st').bind (fun s => applyStep tiny c A s x) :=
-  initNumeric_apply_indep tiny c A st st' h x
+  initNumeric_apply_indep tiny c A st st' h hok hok' x
 
 /-- histories: after `init_symbolic` and ANY sequence of `init_numeric` / `apply` / value-update steps on one object
     (Jacobi, SOR, SSOR, polynomial, ILU(p), matrix), the steps `update v; init_numeric; apply x` return exactly what
@@ -179,12 +206,10 @@ theorem C08.ssor_linear {α : Type} [Field α] (ω : α) (A : Csr α) (hA : sort
     pattern — level 0, level p or anything else — and every matrix with sorted rows and stored diagonal:
     with `f = factorize_numeric_il_du (copy_data_csr A)`, `D = 1 / f.dataD` and non-zero pivots,
     `((I+L)(D+U))_{ic} = A_{ic}` for every `(i, c)` of the pattern.
-    `_partial`: stated for the find-based formulations `copyDataCsrS` / `factorizeNumericS` of the two loops (the
-    merge pointers `ra`, `pl`, `pu` of the C++ replaced by a column search); `drv_c08` runs them side by side with the
-    index-faithful `copyDataCsr` / `factorizeNumeric` on every case and reports `MODEL-SPLIT` on any difference, and it
-    evaluates the hypotheses `wf`, `sorted` on the output of `factorizeSymbolic` — these two links (equality of the
-    formulations, shape of the symbolic output) are observed by the correspondence run, not proved. -/
-theorem C08.ilu_factor_partial {α : Type} [Field α] (s : IluSym) (hs : s.wf = true) (hso : s.sorted = true)
+    Stated for the find-based formulations `copyDataCsrS` / `factorizeNumericS` of the two loops (the merge pointers
+    `ra`, `pl`, `pu` of the C++ replaced by a column search); `C08.ilu_factor` below transfers it to the index-faithful
+    `copyDataCsr` / `factorizeNumeric` (proved equal; `drv_c08` additionally runs both side by side on every case). -/
+theorem C08.ilu_factor_findbased {α : Type} [Field α] (s : IluSym) (hs : s.wf = true) (hso : s.sorted = true)
     (A : Csr α) (hA : sortedDiag A = true) (hn : s.n = A.rows)
     (hpiv : ∀ i, i < s.n → (factorizeNumericS s (copyDataCsrS s A)).dataD.getD i 0 ≠ 0)
     (i c : Nat) (hi : i < s.n) (hc : c < s.n) (hp : s.inPattern i c) :
@@ -210,36 +235,103 @@ theorem C08.ilu_factor_partial {α : Type} [Field α] (s : IluSym) (hs : s.wf = 
     rw [if_neg (by omega), if_neg (by omega), ← h]
     exact copyDataCsrS_U s hs hso A hA hn i hi k k1 k2
 
+/-- ILU numeric factorisation, about the INDEX-FAITHFUL model functions the driver executes (`copyDataCsr` with the
+    moving pointer `ra` working in place on the object's arrays, `factorizeNumeric` with the merge pointers `pl`, `pu`,
+    `k` and the early `break`): for every well-shaped sorted pattern `s` that contains the pattern of `A`, every previous
+    content `prev` of the data arrays and non-zero pivots, `((I+L)(D+U))_{ic} = A_{ic}` on the pattern.
+    (Proved via `copyDataCsr_eq_S`, `factorizeNumeric_eq_S`: the merge-pointer loops equal their find-based
+    formulations, and `C08.ilu_factor_findbased`.) -/
+theorem C08.ilu_factor {α : Type} [Field α] (s : IluSym) (hs : s.wf = true) (hso : s.sorted = true)
+    (A : Csr α) (hA : sortedDiag A = true) (hn : s.n = A.rows) (hcov : s.covers A = true)
+    (prev : IluNum α) (hprev : prev.Sz s)
+    (hpiv : ∀ i, i < s.n → (factorizeNumeric s (copyDataCsr s A prev)).dataD.getD i 0 ≠ 0)
+    (i c : Nat) (hi : i < s.n) (hc : c < s.n) (hp : s.inPattern i c) :
+    ∑ k ∈ range (min i c), (s.matL (factorizeNumeric s (copyDataCsr s A prev))).entry i k
+        * (s.matU (factorizeNumeric s (copyDataCsr s A prev))).entry k c
+      + (if c < i then (s.matL (factorizeNumeric s (copyDataCsr s A prev))).entry i c
+            * (1 / (factorizeNumeric s (copyDataCsr s A prev)).dataD.getD c 0)
+         else if c = i then 1 / (factorizeNumeric s (copyDataCsr s A prev)).dataD.getD i 0
+         else (s.matU (factorizeNumeric s (copyDataCsr s A prev))).entry i c)
+      = A.entry i c := by
+  have e1 : copyDataCsr s A prev = copyDataCsrS s A := copyDataCsr_eq_S s hs hso A hA hn hcov prev hprev
+  have e2 : factorizeNumeric s (copyDataCsrS s A) = factorizeNumericS s (copyDataCsrS s A) :=
+    factorizeNumeric_eq_S s hs hso _ (copyDataCsrS_sizes s A)
+  rw [e1, e2] at hpiv ⊢
+  exact C08.ilu_factor_findbased s hs hso A hA hn hpiv i c hi hc hp
+
 /-- complete factorisation: if the pattern is full (every `(i, c)` is in it), `(I+L)(D+U) = A` everywhere, i.e. the
     ILU solve of `C08.ilu_solve_spec` is the exact inverse -/
-theorem C08.ilu_complete_partial {α : Type} [Field α] (s : IluSym) (hs : s.wf = true) (hso : s.sorted = true)
-    (A : Csr α) (hA : sortedDiag A = true) (hn : s.n = A.rows)
+theorem C08.ilu_complete {α : Type} [Field α] (s : IluSym) (hs : s.wf = true) (hso : s.sorted = true)
+    (A : Csr α) (hA : sortedDiag A = true) (hn : s.n = A.rows) (hcov : s.covers A = true)
+    (prev : IluNum α) (hprev : prev.Sz s)
     (hfull : ∀ i c, i < s.n → c < s.n → s.inPattern i c)
-    (hpiv : ∀ i, i < s.n → (factorizeNumericS s (copyDataCsrS s A)).dataD.getD i 0 ≠ 0)
+    (hpiv : ∀ i, i < s.n → (factorizeNumeric s (copyDataCsr s A prev)).dataD.getD i 0 ≠ 0)
     (i c : Nat) (hi : i < s.n) (hc : c < s.n) :
-    ∑ k ∈ range (min i c), (s.matL (factorizeNumericS s (copyDataCsrS s A))).entry i k
-        * (s.matU (factorizeNumericS s (copyDataCsrS s A))).entry k c
-      + (if c < i then (s.matL (factorizeNumericS s (copyDataCsrS s A))).entry i c
-            * (1 / (factorizeNumericS s (copyDataCsrS s A)).dataD.getD c 0)
-         else if c = i then 1 / (factorizeNumericS s (copyDataCsrS s A)).dataD.getD i 0
-         else (s.matU (factorizeNumericS s (copyDataCsrS s A))).entry i c)
+    ∑ k ∈ range (min i c), (s.matL (factorizeNumeric s (copyDataCsr s A prev))).entry i k
+        * (s.matU (factorizeNumeric s (copyDataCsr s A prev))).entry k c
+      + (if c < i then (s.matL (factorizeNumeric s (copyDataCsr s A prev))).entry i c
+            * (1 / (factorizeNumeric s (copyDataCsr s A prev)).dataD.getD c 0)
+         else if c = i then 1 / (factorizeNumeric s (copyDataCsr s A prev)).dataD.getD i 0
+         else (s.matU (factorizeNumeric s (copyDataCsr s A prev))).entry i c)
       = A.entry i c :=
-  C08.ilu_factor_partial s hs hso A hA hn hpiv i c hi hc (hfull i c hi hc)
+  C08.ilu_factor s hs hso A hA hn hcov prev hprev hpiv i c hi hc (hfull i c hi hc)
 
-/-- FULL statement of the ILU factor clause about the index-faithful model functions (`factorizeSymbolic`,
-    `copyDataCsr`, `factorizeNumeric`).  Not proved in this form; `C08.ilu_factor_partial` proves it for the find-based
-    formulations under the shape hypotheses, the remaining links are checked on every correspondence case. -/
-def C08.IluFactorStatement : Prop :=
-  ∀ (p : Int) (A : Csr Rat), sortedDiag A = true →
-    ∀ s0, setStructCsr A.rows A.rowPtr A.colInd = some s0 →
-      let s := factorizeSymbolic s0 p
-      let f := factorizeNumeric s (copyDataCsr s A)
-      (∀ i, i < s.n → f.dataD.getD i 0 ≠ 0) →
-      ∀ i c, i < s.n → c < s.n → s.inPattern i c →
-        ∑ k ∈ range (min i c), (s.matL f).entry i k * (s.matU f).entry k c
-          + (if c < i then (s.matL f).entry i c * (1 / f.dataD.getD c 0)
-             else if c = i then 1 / f.dataD.getD i 0 else (s.matU f).entry i c)
-        = A.entry i c
+/-- SYMBOLIC ILU(p): for every matrix with sorted rows and stored diagonal and EVERY fill level `p`, `set_struct_csr`
+    does not throw and `factorize_symbolic(p)` yields a well-shaped structure (`wf`: proper offsets, `L` strictly lower,
+    `U` strictly upper, columns in range) with strictly increasing (hence duplicate-free) rows that contains the pattern
+    of the matrix — exactly the hypotheses of `C08.ilu_solve_spec`, `C08.ilu_factor`.
+    (`_partial`: that the pattern is exactly the textbook level-of-fill-`p` pattern is checked by the independent
+    oracle on every case, not proved.) -/
+theorem C08.ilu_symbolic_partial {α : Type} (A : Csr α) (hA : sortedDiag A = true) (p : Int) :
+    ∃ s0, setStructCsr A.rows A.rowPtr A.colInd = some s0 ∧ (factorizeSymbolic s0 p).n = A.rows
+      ∧ (factorizeSymbolic s0 p).wf = true ∧ (factorizeSymbolic s0 p).sorted = true
+      ∧ (factorizeSymbolic s0 p).covers A = true := by
+  obtain ⟨s0, h0, hn, hw, hs, hc⟩ := setStructCsr_spec A hA
+  obtain ⟨g1, g2, g3, g4⟩ := factorizeSymbolic_spec (α := α) s0 hw hs p
+  exact ⟨s0, h0, g1.trans hn, g2, g3, g4 A hc⟩
+
+/-- the ILU factor clause for the whole executed chain `set_struct_csr → factorize_symbolic(p) → copy_data_csr (in
+    place, any previous content) → factorize_numeric_il_du`: for every matrix with sorted rows and stored diagonal,
+    every fill level `p` and non-zero pivots, `((I+L)(D+U))_{ic} = A_{ic}` for every `(i, c)` of the level-`p` pattern. -/
+theorem C08.ilu_factor_full {α : Type} [Field α] (p : Int) (A : Csr α) (hA : sortedDiag A = true) (s0 : IluSym)
+    (h0 : setStructCsr A.rows A.rowPtr A.colInd = some s0) (prev : IluNum α) (hprev : prev.Sz (factorizeSymbolic s0 p))
+    (hpiv : ∀ i, i < (factorizeSymbolic s0 p).n →
+      (factorizeNumeric (factorizeSymbolic s0 p) (copyDataCsr (factorizeSymbolic s0 p) A prev)).dataD.getD i 0 ≠ 0)
+    (i c : Nat) (hi : i < (factorizeSymbolic s0 p).n) (hc : c < (factorizeSymbolic s0 p).n)
+    (hp : (factorizeSymbolic s0 p).inPattern i c) :
+    ∑ k ∈ range (min i c),
+        ((factorizeSymbolic s0 p).matL
+            (factorizeNumeric (factorizeSymbolic s0 p) (copyDataCsr (factorizeSymbolic s0 p) A prev))).entry i k
+        * ((factorizeSymbolic s0 p).matU
+            (factorizeNumeric (factorizeSymbolic s0 p) (copyDataCsr (factorizeSymbolic s0 p) A prev))).entry k c
+      + (if c < i then ((factorizeSymbolic s0 p).matL
+              (factorizeNumeric (factorizeSymbolic s0 p) (copyDataCsr (factorizeSymbolic s0 p) A prev))).entry i c
+            * (1 / (factorizeNumeric (factorizeSymbolic s0 p)
+                (copyDataCsr (factorizeSymbolic s0 p) A prev)).dataD.getD c 0)
+         else if c = i then 1 / (factorizeNumeric (factorizeSymbolic s0 p)
+                (copyDataCsr (factorizeSymbolic s0 p) A prev)).dataD.getD i 0
+         else ((factorizeSymbolic s0 p).matU
+              (factorizeNumeric (factorizeSymbolic s0 p) (copyDataCsr (factorizeSymbolic s0 p) A prev))).entry i c)
+      = A.entry i c := by
+  obtain ⟨s0', h0', hn, hw, hs, hcov⟩ := C08.ilu_symbolic_partial A hA p
+  rw [h0] at h0'
+  cases h0'
+  exact C08.ilu_factor _ hw hs A hA hn hcov prev hprev hpiv i c hi hc hp
+
+/-- blocked ILU (`ILUCoreBlocked::solve_il / solve_du`): the same model functions `solveIl` / `solveDu` / `iluSolve`,
+    run by `drv_c08` at the ring of bs×bs rational blocks against the real BCSR code, over an arbitrary
+    (non-commutative) ring: `(I+L) y = b`, `(D+U) z = y`, where `D_i` is any left inverse of the stored inverted pivot
+    block. -/
+theorem C08.ilu_solve_spec_blocked {R : Type} [Ring R] (s : IluSym) (hs : s.wf = true) (d : IluNum R)
+    (hl : d.dataL.size = s.ciL.size) (hu : d.dataU.size = s.ciU.size)
+    (Dm : Nat → R) (hd : ∀ i, i < s.n → Dm i * d.dataD.getD i 0 = 1) (b x0 : Array R) (hb : b.size = s.n)
+    (hx0 : x0.size = s.n) :
+    (iluSolve s d b x0).size = s.n ∧
+    ∃ y : Array R, y.size = s.n ∧
+      (∀ i, i < s.n → y.getD i 0 + ∑ j ∈ range s.n, (s.matL d).entry i j * y.getD j 0 = b.getD i 0) ∧
+      (∀ i, i < s.n → Dm i * (iluSolve s d b x0).getD i 0
+          + ∑ j ∈ range s.n, (s.matU d).entry i j * (iluSolve s d b x0).getD j 0 = y.getD i 0) :=
+  BlkIlu.iluSolve_spec_ring s hs d hl hu Dm hd b x0 hb hx0
 
 /-- the hypotheses of the sweep theorems are satisfiable by a non-trivial matrix (tridiagonal 3×3) -/
 example : sortedDiag (α := Rat)
